@@ -203,7 +203,8 @@ def w_landmarks(ctx, rng, i):
         single = bool((i // 2) % 3 == 0)
         if single:
             cls = gen.SHAPE_CLASSES[(i // 6) % 8]
-            obj = gen.shape(rng, cls, d=d)
+            # (the shape may carry landmark groups of its own - marked sub-points: it is the shape that is written, not they)
+            obj = gen.shape(rng, cls, d=d, with_landmarks=int(rng.integers(0, 3)) if rng.random() < 0.3 else 0)
             if rng.random() < 0.4:
                 obj.points[rng.integers(0, obj.n_points), rng.integers(0, d)] = np.nan
             if rng.random() < 0.5:
@@ -388,7 +389,10 @@ def w_images(ctx, rng, i):
             as8 = np.round(im.pixels * 255).astype(np.uint8) if normalize else im.pixels
             if not np.array_equal(as8, u8):
                 ctx.fail("imported_image_differs_from_the_file", cls="import", mech="normalize=%s" % normalize)
-            arg, ab, sp = sb.spell(rng, "%s_%d%s" % (NAMES[rng.integers(0, 3)], int(normalize), fmt))
+            # (file names with dots in them - also ones whose inner part looks like another image extension: the last suffix decides)
+            arg, ab, sp = sb.spell(rng, "%s_%d%s" % (["out", "a.b", "x.y.z", "shot.jpg", "scan.jpeg.v2", "old.gif"][rng.integers(0, 6)], int(normalize), fmt) if rng.random() < 0.7
+                                   else "%s.%d%s" % (["shot.jpg", "scan.jpeg", "old.jpe"][rng.integers(0, 3)], int(normalize), fmt) if rng.random() < 0.5
+                                   else "%d_%s%s" % (int(normalize), ["shot.jpg", "scan.jpeg", "take.2.jpg"][rng.integers(0, 3)], fmt))
             dg = digest(im)
             if not watched_export(ctx, mio.export_image, im, arg, ab, False, ("image" + fmt, sp)):
                 continue
